@@ -61,6 +61,10 @@ pub struct Case {
     /// 0 = packet::StreamDecryptor over the body, 1 = Message::decrypt_with_session_key
     pub level: u8,
     pub consumer: u8,
+    /// level 1: packets the reader skips in front of the container: 0 none, 1 a Marker packet,
+    /// 2 a Padding packet, 3 both
+    #[serde(default)]
+    pub lead: u8,
 }
 
 pub const CONSUMERS: [&str; 9] = [
@@ -339,7 +343,10 @@ fn tampers(c: &Container, family: Family) -> Vec<Tampered> {
             }
         }
         Family::Appends => {
-            for k in 1..=17usize {
+            // also whole chunks' worth (and a buffer's worth) of appended octets
+            let unit = if c.v2 { 1usize << (c.chunk as usize + 6) } else { 64 };
+            let ks: Vec<usize> = (1..=17usize).chain([unit - 1, unit, unit + 1, unit + 16, unit + 17, 2 * unit, 2 * unit + 16, 3 * unit + 16].into_iter().filter(|k| *k > 17 && *k <= 300_000)).chain(if unit < 8192 { vec![8192, 8192 + 22, 8192 + unit + 16] } else { vec![] }).collect();
+            for k in ks {
                 for fill in [0u8, 0xFF] {
                     let mut b = body.clone();
                     b.extend(std::iter::repeat(fill).take(k));
@@ -543,19 +550,28 @@ fn run(c: &Case) -> Outcome {
                 None => continue,
             }
         } else {
-            decrypt_l1(&c.c, &t.stream, c.consumer)
+            let mut stream = Vec::new();
+            if c.lead & 1 != 0 {
+                stream.extend_from_slice(&model::packet(10, b"PGP"));
+            }
+            if c.lead & 2 != 0 {
+                stream.extend_from_slice(&model::packet(21, &[0x77; 5]));
+            }
+            stream.extend_from_slice(&t.stream);
+            decrypt_l1(&c.c, &stream, c.consumer)
         };
         evals += 1;
         let (inner0, data0) = inner(c.c.inner_len, t.authentic.unwrap_or(0));
         let want: &[u8] = if c.level == 0 { &inner0 } else { &data0 };
         let ctx = format!(
-            "{kind} sym {} aead {} chunk {} inner {} ({}), level {}, consumer {}: {}",
+            "{kind} sym {} aead {} chunk {} inner {} ({}), level {}{}, consumer {}: {}",
             c.c.sym,
             c.c.aead,
             c.c.chunk,
             c.c.inner_len,
             if c.c.by_library { "library-made" } else { "model-made" },
             c.level,
+            ["", " behind a Marker packet", " behind a Padding packet", " behind Marker + Padding packets"][c.lead as usize & 3],
             CONSUMERS[c.consumer as usize],
             t.what
         );
@@ -710,6 +726,7 @@ pub fn check(ctx: &Ctx) {
                     family: Family::Authentic,
                     level,
                     consumer,
+                    lead: 0,
                 });
             }
         }
@@ -721,7 +738,7 @@ pub fn check(ctx: &Ctx) {
                 }
                 for level in [0u8, 1] {
                     for consumer in [0u8, 5, 7, 8] {
-                        cases.push(Case { c: *c, family, level, consumer });
+                        cases.push(Case { c: *c, family, level, consumer, lead: 0 });
                     }
                 }
             }
@@ -768,7 +785,27 @@ pub fn check(ctx: &Ctx) {
                         family,
                         level,
                         consumer,
+                        lead: 0,
                     });
+                }
+            }
+        }
+    }
+    // the same containers behind packets the message reader skips (Marker, Padding)
+    for c in &cs {
+        for lead in 1..=3u8 {
+            for family in [Family::Authentic, Family::Appends, Family::Truncations, Family::StreamLevel, Family::SparseFlips] {
+                if c.inner_len > 1000 && matches!(family, Family::Truncations | Family::StreamLevel) {
+                    continue;
+                }
+                if c.inner_len <= 1000 && family == Family::SparseFlips {
+                    continue;
+                }
+                if lead == 3 && family != Family::Appends {
+                    continue;
+                }
+                for consumer in [0u8, 5, 8] {
+                    cases.push(Case { c: *c, family, level: 1, consumer, lead });
                 }
             }
         }
@@ -776,7 +813,7 @@ pub fn check(ctx: &Ctx) {
     ctx.run_space(
         "tampered_containers",
         true,
-        "authentic containers (library-made and model-made; SEIPDv2 cipher x AEAD x chunk 64B(/128B) x plaintext lengths around 0,1,2(,3,4) chunks, plus 4 KiB (512 B, 64 KiB) chunk sizes with short plaintexts; SEIPDv1 ciphers x lengths x CheckFirst/Streaming; SEIPDv2 containers of 256..515 chunks and SEIPDv1 streaming-mode containers whose length is 8170k-1, 8170k, 8170k+1 (the stream ending exactly with a refill of the 8 KiB buffer; thorough every length 8160..8180) with flips in the first / middle / last 24 octets, chunk exchanges / repeats at distances 1, 255, 256, 257, 512, and appended octets) x deviation family {every single-bit flip of the whole body, every truncation length, 1..17 appended octets, header octets x all 256 values + salt octets, all chunk sequences of length <= n+2 over own chunks/final tag + first chunk/final tag of a second message under the same session key, stream cut at every offset / trailing data} x consumer {read_to_end, read(1/15/16/17/64/80/8192), fill_buf+consume} x level {packet::StreamDecryptor, Message::decrypt_the_ring(session key)}; evaluations = decrypt attempts. Oracle: reading ends in an error unless the container is byte-identical to an authentic one; SEIPDv1 CheckFirst releases nothing; SEIPDv2 releases only a prefix of the true plaintext.",
+        "authentic containers (library-made and model-made; SEIPDv2 cipher x AEAD x chunk 64B(/128B) x plaintext lengths around 0,1,2(,3,4) chunks, plus 4 KiB (512 B, 64 KiB) chunk sizes with short plaintexts; SEIPDv1 ciphers x lengths x CheckFirst/Streaming; SEIPDv2 containers of 256..515 chunks and SEIPDv1 streaming-mode containers whose length is 8170k-1, 8170k, 8170k+1 (the stream ending exactly with a refill of the 8 KiB buffer; thorough every length 8160..8180) with flips in the first / middle / last 24 octets, chunk exchanges / repeats at distances 1, 255, 256, 257, 512, and appended octets) x deviation family {every single-bit flip of the whole body, every truncation length, 1..17 appended octets, header octets x all 256 values + salt octets, all chunk sequences of length <= n+2 over own chunks/final tag + first chunk/final tag of a second message under the same session key, stream cut at every offset / trailing data; appended octets also one chunk / two chunks / one 8 KiB buffer long} x {directly, behind a Marker packet, behind a Padding packet} x consumer {read_to_end, read(1/15/16/17/64/80/8192), fill_buf+consume} x level {packet::StreamDecryptor, Message::decrypt_the_ring(session key)}; evaluations = decrypt attempts. Oracle: reading ends in an error unless the container is byte-identical to an authentic one; SEIPDv1 CheckFirst releases nothing; SEIPDv2 releases only a prefix of the true plaintext.",
         cases.into_par_iter(),
         run,
     );
